@@ -56,14 +56,61 @@ mutual
       simp
 end
 
+/-- `k` is the id of `b` or of a graph nested in `b` at any depth -/
+inductive NestedIn : GraphT → GId → Prop
+  | self {b : GraphT} : NestedIn b b.gid
+  | deeper {b c : GraphT} {n : NodeT} {k : GId} : n ∈ b.nodes → c ∈ n.bodies → NestedIn c k → NestedIn b k
+
+mutual
+  theorem mem_gidsG : ∀ (g : GraphT) (k : GId), k ∈ gidsG g ↔ NestedIn g k
+    | .mk gid i w o ns, k => by
+      rw [gidsG, List.mem_cons, mem_gidsNs ns k]
+      constructor
+      · rintro (rfl | ⟨n, hn, c, hc, h⟩)
+        · exact NestedIn.self (b := .mk k i w o ns)
+        · exact NestedIn.deeper (b := .mk gid i w o ns) hn hc h
+      · intro h
+        cases h with
+        | self => exact Or.inl rfl
+        | deeper hn hc h => exact Or.inr ⟨_, hn, _, hc, h⟩
+  theorem mem_gidsNs : ∀ (ns : List NodeT) (k : GId),
+      k ∈ gidsNs ns ↔ ∃ n, n ∈ ns ∧ ∃ c, c ∈ n.bodies ∧ NestedIn c k
+    | [], k => by simp [gidsNs]
+    | n :: ns, k => by
+      rw [gidsNs, List.mem_append, mem_gidsN n k, mem_gidsNs ns k]
+      simp
+  theorem mem_gidsN : ∀ (n : NodeT) (k : GId), k ∈ gidsN n ↔ ∃ c, c ∈ n.bodies ∧ NestedIn c k
+    | .mk ins outs bs, k => by
+      rw [gidsN, mem_gidsGs bs k]
+      simp
+  theorem mem_gidsGs : ∀ (gs : List GraphT) (k : GId), k ∈ gidsGs gs ↔ ∃ c, c ∈ gs ∧ NestedIn c k
+    | [], k => by simp [gidsGs]
+    | g :: gs, k => by
+      rw [gidsGs, List.mem_append, mem_gidsG g k, mem_gidsGs gs k]
+      simp
+end
+
+/-- `v` is not owned by `b` nor by a graph nested in `b`, or it is owned by `p`: what a nested graph `b` of a
+    region of graph `p` captures from outside -/
+def Outside (W : World) (p : GId) (b : GraphT) (v : VId) : Prop :=
+  W.graphOf v = some p ∨ ∀ k, NestedIn b k → W.graphOf v ≠ some k
+
 theorem mem_externalValues {W : World} {p : GId} {g : GraphT} {v : VId} :
-    v ∈ externalValues W p g ↔ UsedInG g v ∧ W.graphOf v = some p := by
-  unfold externalValues
+    v ∈ externalValues W p g ↔ UsedInG g v ∧ Outside W p g v := by
+  unfold externalValues Outside
   rw [List.mem_filter, mem_usedG]
-  simp
+  simp only [Bool.or_eq_true, beq_iff_eq, Bool.not_eq_eq_eq_not, Bool.not_true,
+    List.contains_eq_mem, decide_eq_false_iff_not, List.mem_map, not_exists, not_and]
+  constructor
+  · rintro ⟨h1, h2 | h2⟩
+    · exact ⟨h1, Or.inl h2⟩
+    · exact ⟨h1, Or.inr (fun k hk e => h2 k ((mem_gidsG g k).mpr hk) e.symm)⟩
+  · rintro ⟨h1, h2 | h2⟩
+    · exact ⟨h1, Or.inl h2⟩
+    · exact ⟨h1, Or.inr (fun k hk e => h2 k ((mem_gidsG g k).mp hk) e.symm)⟩
 
 theorem mem_captured {W : World} {p : GId} {n : NodeT} {v : VId} :
-    v ∈ captured W p n ↔ ∃ b, b ∈ n.bodies ∧ UsedInG b v ∧ W.graphOf v = some p := by
+    v ∈ captured W p n ↔ ∃ b, b ∈ n.bodies ∧ UsedInG b v ∧ Outside W p b v := by
   unfold captured
   rw [List.mem_flatMap]
   constructor
@@ -72,11 +119,11 @@ theorem mem_captured {W : World} {p : GId} {n : NodeT} {v : VId} :
 
 /-! ## the region, declaratively -/
 
-/-- `u` is needed to run node `n` of the table when extracting from graph `p`: it is an input of `n`, or a
-    value of `p` used at any depth inside a graph held by an attribute of `n` -/
+/-- `u` is needed to run node `n` of the table when extracting from graph `p`: it is an input of `n`, or it
+    is used at any depth inside a graph held by an attribute of `n` and comes from outside that graph -/
 def Needs (W : World) (p : GId) (n : NId) (u : VId) : Prop :=
   some u ∈ (W.nodeD n).inputs ∨
-  ∃ b, b ∈ (W.nodeD n).bodies ∧ UsedInG b u ∧ W.graphOf u = some p
+  ∃ b, b ∈ (W.nodeD n).bodies ∧ UsedInG b u ∧ Outside W p b u
 
 /-- the required values: least set containing the outputs not cut by the boundary inputs `I` and closed
     under "needed by the producer of a required value, unless cut by `I`" -/
